@@ -23,6 +23,7 @@ import (
 
 func init() {
 	vs.RegisterHarness("VerifC14OracleAllocate", VerifC14OracleAllocate)
+	vs.RegisterHarness("VerifC14OracleRewardPercentageRange", VerifC14OracleRewardPercentageRange)
 }
 
 var c14Denoms = []string{"uband", "uusd"}
@@ -30,6 +31,11 @@ var c14Denoms = []string{"uband", "uusd"}
 func c14Big(x int64) *big.Int { return new(big.Int).SetInt64(x) }
 
 var c14One18 = new(big.Int).Exp(big.NewInt(10), big.NewInt(18), nil)
+
+// c14Frac: power/total truncated to 18 decimals (in 10^-18 units), as the SDK decimal type defines it.
+func c14Frac(power, total int64) *big.Int {
+	return sdkmath.LegacyNewDec(power).QuoTruncate(sdkmath.LegacyNewDec(total)).BigInt()
+}
 
 // c14Dec: amount of denom in 10^-18 units.
 func c14Dec(dc sdk.DecCoins, denom string) *big.Int { return dc.AmountOf(denom).BigInt() }
@@ -141,13 +147,14 @@ func VerifC14OracleAllocate() {
 	err := k.AllocateTokens(ctx, votes)
 
 	// ---- oracles
-	// total power of the rewarded set, as the code must see it
-	total := big.NewInt(0)
+	// total power of the rewarded set (an int64 sum; it cannot wrap under the voting-power bound)
+	var totalPower int64
 	for i := 0; i < nVotes; i++ {
 		if registered[i] && active[i] {
-			total = new(big.Int).Add(total, c14Big(power[i]))
+			totalPower += power[i]
 		}
 	}
+	_ = c14Big
 	vs.Assert("no-error", err == nil)
 	if err != nil {
 		vs.Reach("error", true)
@@ -157,7 +164,7 @@ func VerifC14OracleAllocate() {
 	fee1 := bank.Get(feeAddr)
 	distrBal1 := bank.Get(distrAddr)
 
-	if total.Sign() == 0 {
+	if totalPower == 0 {
 		vs.Reach("nobody-active", true)
 		vs.Assert("idle-no-allocation", distr.Allocs == 0 && distr.Funds == 0 && bank.Sends == 0)
 		for d := 0; d < nDenoms; d++ {
@@ -179,18 +186,18 @@ func VerifC14OracleAllocate() {
 		moved := new(big.Int).Sub(f0, f1)
 
 		// the fee collector pays exactly the truncated share, the distribution account receives it
-		share := new(big.Int).Quo(new(big.Int).Mul(f0, pctB), big.NewInt(100))
+		share := new(big.Int).Div(new(big.Int).Mul(f0, pctB), big.NewInt(100))
 		vs.Assert("fee-collector-pays-truncated-share", moved.Cmp(share) == 0)
 		vs.Assert("bank-conserved", new(big.Int).Sub(b1, b0).Cmp(moved) == 0)
 
 		// community pool receives exactly trunc(share * tax) whole coins
 		poolDelta := new(big.Int).Sub(c14Dec(distr.Pool, dn), c14Dec(pool0, dn))
-		taxCoins := new(big.Int).Quo(new(big.Int).Mul(moved, taxUnits), c14One18)
+		taxCoins := new(big.Int).Div(new(big.Int).Mul(moved, taxUnits), c14One18)
 		vs.Assert("community-pool-gets-truncated-tax", poolDelta.Cmp(new(big.Int).Mul(taxCoins, c14One18)) == 0)
 
 		// the distribution ledgers account for every coin that arrived: nothing minted, nothing lost
 		ledger := new(big.Int).Set(poolDelta)
-		rewardPot := new(big.Int).Mul(new(big.Int).Sub(moved, taxCoins), c14One18) // in 10^-18 units
+		rewardPot := new(big.Int).Sub(new(big.Int).Mul(moved, c14One18), poolDelta) // in 10^-18 units
 		sumShares := big.NewInt(0)
 		for i := 0; i < nVals; i++ {
 			op := venv.ValAddr(i).String()
@@ -202,8 +209,8 @@ func VerifC14OracleAllocate() {
 			want := big.NewInt(0)
 			if rewarded {
 				// reference: trunc(pot * trunc(power/total)) in 18-decimal fixed point
-				frac := new(big.Int).Quo(new(big.Int).Mul(c14Big(power[i]), c14One18), total)
-				want = new(big.Int).Quo(new(big.Int).Mul(rewardPot, frac), c14One18)
+				frac := c14Frac(power[i], totalPower)
+				want = new(big.Int).Div(new(big.Int).Mul(rewardPot, frac), c14One18)
 				sumShares = new(big.Int).Add(sumShares, want)
 			}
 			if i != proposer {
@@ -221,11 +228,47 @@ func VerifC14OracleAllocate() {
 		pdelta := new(big.Int).Sub(c14Dec(distr.OutstandingOf(pop), dn), c14Dec(out0[proposer], dn))
 		pown := big.NewInt(0)
 		if proposer < nVotes && registered[proposer] && active[proposer] {
-			frac := new(big.Int).Quo(new(big.Int).Mul(c14Big(power[proposer]), c14One18), total)
-			pown = new(big.Int).Quo(new(big.Int).Mul(rewardPot, frac), c14One18)
+			frac := c14Frac(power[proposer], totalPower)
+			pown = new(big.Int).Div(new(big.Int).Mul(rewardPot, frac), c14One18)
 		}
 		remainder := new(big.Int).Sub(rewardPot, sumShares)
 		vs.Assert("remainder-non-negative", remainder.Sign() >= 0)
 		vs.Assert("proposer-gets-remainder", pdelta.Cmp(new(big.Int).Add(pown, remainder)) == 0)
 	}
+}
+
+// VerifC14OracleRewardPercentageRange: the module's own parameter validation is the only guard on the
+// reward percentage. Whatever SetParams accepts must not make the begin-block allocation fail (an error
+// or a panic in a begin-blocker stops the chain).
+func VerifC14OracleRewardPercentageRange() {
+	key := storetypes.NewKVStoreKey(types.StoreKey)
+	ctx := venv.NewContext(key)
+	bank := venv.NewBank()
+	staking := venv.NewStakingC()
+	distr := venv.NewDistr(bank, sdkmath.LegacyNewDecWithPrec(2, 2))
+	k := Keeper{
+		storeKey:         key,
+		cdc:              venv.Codec(),
+		feeCollectorName: authtypes.FeeCollectorName,
+		authKeeper:       venv.AuthM{},
+		bankKeeper:       bank,
+		stakingKeeper:    staking,
+		distrKeeper:      distr,
+	}
+	p := types.DefaultParams()
+	pct := vs.U64("oracle_reward_percentage")
+	p.OracleRewardPercentage = pct
+	vs.Assume(pct <= 1000)                // keeps the decimal arithmetic small; Validate has no bound at all
+	vs.Assume(k.SetParams(ctx, p) == nil) // accepted by Params.Validate
+
+	staking.AddValidator(venv.ConsAddr(0), stakingtypes.Validator{OperatorAddress: venv.ValAddr(0).String()})
+	k.SetValidatorStatus(ctx, venv.ValAddr(0), types.NewValidatorStatus(true, time.Unix(100, 0)))
+	ctx = ctx.WithBlockHeader(cmtproto.Header{ProposerAddress: venv.ConsAddr(0)})
+	bank.Set(venv.ModuleAddr(authtypes.FeeCollectorName), sdk.NewCoins(sdk.NewInt64Coin(c14Denoms[0], 1000)))
+	votes := []abci.VoteInfo{{Validator: abci.Validator{Address: venv.ConsAddr(0), Power: 10}}}
+
+	err := k.AllocateTokens(ctx, votes)
+	vs.Reach("in-range", pct <= 100)
+	vs.Known("C14-reward-percentage-unbounded", pct > 100)
+	vs.Assert("accepted-percentage-never-halts-begin-block", err == nil)
 }
